@@ -176,7 +176,7 @@ func init() {
 			note(ez.bad)
 		}
 		// services
-		svcMode := c.Choose("services", 4) // 0: Svc, 1: Svc + Other, 2: Svc twice, 3: Svc by name not found
+		svcMode := c.Choose("services", 5) // 0: Svc, 1: Svc + Other, 2: Svc twice, 3: Svc by name not found, 4: Svc twice from two descriptor instances
 		// the second service may carry options of its own (isolation between services)
 		op, oc, oz := sp, sc, sz
 		otherOwn := false
@@ -250,7 +250,7 @@ func init() {
 			note("duplicate template and method")
 		}
 		switch svcMode {
-		case 2:
+		case 2, 4:
 			note("method registered twice")
 		case 3:
 			note("service not found")
@@ -306,6 +306,14 @@ func init() {
 			services = append(services, vanguard.NewServiceWithSchema(other, handler, oopts...))
 		case 2:
 			services = append(services, vanguard.NewServiceWithSchema(svc, handler, sopts...))
+		case 4:
+			// the same service (same full name) described by a second, equal descriptor instance
+			twin, terr := world.BuildService("verif/c/svc.proto", "verif.c", "Svc", []world.MethodSpec{{Name: "Get"}, {Name: "GetMore"}, {Name: "Put"}})
+			if terr != nil {
+				c.Fail("harness.setup", "%v", terr)
+				return
+			}
+			services = append(services, vanguard.NewServiceWithSchema(twin, handler, sopts...))
 		case 3:
 			services = append(services, vanguard.NewService("/no.such.Service/", handler))
 		}
@@ -541,7 +549,7 @@ func init() {
 	Register(&Check{
 		ID:    "C17",
 		Level: "exploration",
-		Rule: "All combinations up to D deviations from a plain configuration: target protocols (6 settings incl. none, an invalid value, REST-only), codecs (5 incl. none, unknown, the extra codec), compressions (4 incl. unknown), each given as transcoder-wide default and/or per service (conflicting); one service, two services, the same service twice, an unresolvable service; " +
+		Rule: "All combinations up to D deviations from a plain configuration: target protocols (6 settings incl. none, an invalid value, REST-only), codecs (5 incl. none, unknown, the extra codec), compressions (4 incl. unknown), each given as transcoder-wide default and/or per service (conflicting); one service, two services (the second with options of its own), the same service twice (same descriptor, or two equal descriptor instances), an unresolvable service; " +
 			"0-2 WithRules rules with selector (12: exact names incl. one that is a prefix of another method, '.*' forms, '*', misplaced wildcards, empty, no match), pattern (16: 4 valid, 12 invalid), body/response_body (9 incl. unknown and dotted), additional bindings (valid, nested, duplicate). " +
 			"Oracle: an independent predicate built from the property's rejection classes; accepted configurations are probed (every binding reachable through the URL built from its template and reaching exactly the named method; effective per-service-over-default options). Non-trivial = configurations with exactly one rejection reason, and accepted ones.",
 		Assume:      []string{"limits of 0 and other settings the property does not list are not varied"},
